@@ -97,7 +97,7 @@ def cases(tier, seed):
                 if rank == 0 and basis == "biorth":
                     continue
                 for dt in ("float64", "complex128", "float32", "complex64"):
-                    for vec in ("real", "complex", "matrix"):
+                    for vec in ("real", "complex", "matrix", "imag", "zero-imag"):
                         out.append(dict(solver="greens", n=n, rank=rank, basis=basis, dtype=dt, vec=vec, seed=seed))
                         if rank == 2 and basis == "orth":
                             out.append(dict(solver="greens", n=6, rank=rank, basis=basis, dtype=dt, vec=vec, seed=seed, layout="localized"))
@@ -451,7 +451,11 @@ def run_greens(case):
     V = []
     shape = (n,) if case["vec"] != "matrix" else (n, 2)
     v = rng.normal(size=shape)
-    if case["vec"] != "real":
+    if case["vec"] == "imag":  # purely imaginary right-hand side
+        v = 1j * v
+    elif case["vec"] == "zero-imag":  # real values held in a complex array
+        v = v + 0j
+    elif case["vec"] != "real":
         v = v + 1j * rng.normal(size=shape)
     # the right-hand side has the precision of the operator (mixed precision is rejected by scipy's factorisation)
     if dt.itemsize == (8 if cplx else 4):
